@@ -718,6 +718,12 @@ func c01CountersAs(c *core.Ctx, pkg *packages.Package, R string) {
 			case d.Expr != nil && fn.Info().Types[d.Expr].Value != nil:
 			case zoneIdxRe.MatchString(d.Canon):
 			default:
+				// any other spelling of "look the zone up in this ring's list" (a hand-written search, a helper) is
+				// accepted as long as the value is not read out of the shared token→owner entry: the entry may be
+				// consulted for its Zone / InstanceID only
+				if d.Expr != nil && !readsOwnerEntryPosition(fn, d.Expr) && !strings.Contains(d.Canon, "ringInstanceByToken") || d.Expr == nil && !strings.Contains(d.Canon, "ringInstanceByToken") {
+					continue
+				}
 				badIdx = append(badIdx, fmt.Sprintf("%s with %s = %s", types.ExprString(ie), io.Name(), d.Canon))
 			}
 		}
@@ -810,4 +816,29 @@ func c01SearchTokenAs(c *core.Ctx, pkg *packages.Package, R string) {
 		}}
 	res := t.Run()
 	c.Check(res.OK() && g.Before(inc[0], reset[0]) || res.OK() && !g.Before(reset[0], inc[0]), R, "func=searchToken", fn.Pos(), "i = BinarySearch(tokens, key); i+1 ⇔ found; then i = 0 ⇔ i ≥ len(tokens); i returned: "+res.Summary(), res.Rows)
+}
+
+
+// readsOwnerEntryPosition: e selects, from a value of the token→owner entry type (instanceInfo), a field other
+// than Zone / InstanceID.
+func readsOwnerEntryPosition(fn *an.Fn, e ast.Expr) bool {
+	found := false
+	ast.Inspect(e, func(n ast.Node) bool {
+		sel, ok := n.(*ast.SelectorExpr)
+		if !ok {
+			return true
+		}
+		t := fn.Info().TypeOf(sel.X)
+		if t == nil {
+			return true
+		}
+		if p, isPtr := t.(*types.Pointer); isPtr {
+			t = p.Elem()
+		}
+		if nt, isNamed := t.(*types.Named); isNamed && nt.Obj().Name() == "instanceInfo" && sel.Sel.Name != "Zone" && sel.Sel.Name != "InstanceID" {
+			found = true
+		}
+		return true
+	})
+	return found
 }
